@@ -54,6 +54,7 @@ var c11Kinds = []string{
 	"install", "install", "refresh", "refresh", "refresh", "refresh", "refresh", "refresh-kept", "refresh-kept",
 	"revert", "revert", "revert-to", "enable", "disable", "disable", "remove", "remove", "remove", "remove-rev", "remove-rev", "remove-rev", "remove-rev", "remove-rev",
 	"switch", "set-config", "set-config", "set-retain", "episode-disabled", "episode-disabled",
+	"episode-remove-current", "episode-remove-current", "episode-remove-current",
 }
 
 func c11Gen(t *rapid.T) c11Case {
@@ -72,6 +73,11 @@ func c11Gen(t *rapid.T) c11Case {
 			name, kinds = focus, []string{"install"}
 		case 1:
 			name, kinds = focus, []string{"refresh"}
+		case 2:
+			if rapid.Bool().Draw(t, "retain-early") {
+				c.Steps = append(c.Steps, c11Step{Req: worldReq{Op: "set-retain", Snap: focus, Retain: rapid.IntRange(3, 5).Draw(t, "retain")}})
+				continue
+			}
 		}
 		kind := rapid.SampledFrom(kinds).Draw(t, "kind")
 		if kind == "episode-disabled" {
@@ -80,6 +86,36 @@ func c11Gen(t *rapid.T) c11Case {
 			mid := worldGenReq(t, name, []string{"refresh", "refresh", "refresh-kept", "revert", "remove-rev"})
 			c.Steps = append(c.Steps, c11Step{Req: mid})
 			c.Steps = append(c.Steps, c11Step{Req: worldReq{Op: "enable", Snap: name}})
+			continue
+		}
+		if kind == "episode-remove-current" {
+			// a single revision that is the CURRENT one of a DISABLED snap is removed:
+			// snapstate accepts it and has to pick a new current among the remaining kept
+			// revisions.  Preceded by refreshes/reverts so that current sits first, in the
+			// middle or last in the kept sequence; followed by enable (or whatever comes next).
+			for i, k := 0, rapid.IntRange(0, 2).Draw(t, "pre-refresh"); i < k; i++ {
+				c.Steps = append(c.Steps, c11Step{Req: worldGenReq(t, name, []string{"refresh"})})
+			}
+			switch rapid.IntRange(0, 3).Draw(t, "pre-revert") {
+			case 0, 1:
+				c.Steps = append(c.Steps, c11Step{Req: worldGenReq(t, name, []string{"revert"})})
+			case 2:
+				c.Steps = append(c.Steps, c11Step{Req: worldGenReq(t, name, []string{"revert-to"})})
+			}
+			c.Steps = append(c.Steps, c11Step{Req: worldReq{Op: "disable", Snap: name}})
+			rm := c11Step{Req: worldReq{Op: "remove-rev", Snap: name, Purge: rapid.Bool().Draw(t, "purge")}}
+			if rapid.IntRange(0, 3).Draw(t, "any") == 0 {
+				rm.Req.PickAny, rm.Req.Pick = true, rapid.IntRange(0, 5).Draw(t, "pick")
+			} else {
+				rm.Req.PickCurrent = true
+			}
+			if rapid.IntRange(0, 5).Draw(t, "rm-faulty") == 0 {
+				rm.Fault = rapid.IntRange(1, 4).Draw(t, "fault")
+			}
+			c.Steps = append(c.Steps, rm)
+			if rapid.IntRange(0, 2).Draw(t, "enable-after") > 0 {
+				c.Steps = append(c.Steps, c11Step{Req: worldReq{Op: "enable", Snap: name}})
+			}
 			continue
 		}
 		st := c11Step{Req: worldGenReq(t, name, []string{kind})}
@@ -119,6 +155,8 @@ func c11Run(c *check.C, cs c11Case) (verifkit.Outcome, error) {
 	var hist []string
 	track := map[string]*c11SnapTrack{}
 	var failedThenOK, removeNonCurrent, disabledEpisode, wholeRemove, failedRemove, refusedSeen bool
+	var removeCurDisabled, removeCurDisabledNotLast, enabledAfterRemoveCur bool
+	removedCurOf := map[string]bool{}
 	tail := func() string {
 		h := hist
 		if len(h) > 14 {
@@ -253,6 +291,23 @@ func c11Run(c *check.C, cs c11Case) (verifkit.Outcome, error) {
 			if rr.Op == "remove-rev" && len(seqBefore) > 1 && rr.Rev != curBefore {
 				removeNonCurrent = true
 			}
+			if rr.Op == "remove-rev" && len(seqBefore) > 1 && rr.Rev == curBefore && disabled {
+				removeCurDisabled = true
+				removedCurOf[rr.Snap] = true
+				switch {
+				case seqBefore[0] == curBefore:
+					o.Extra["remove_current_disabled_first"]++
+					removeCurDisabledNotLast = true
+				case seqBefore[len(seqBefore)-1] == curBefore:
+					o.Extra["remove_current_disabled_last"]++
+				default:
+					o.Extra["remove_current_disabled_middle"]++
+					removeCurDisabledNotLast = true
+				}
+			}
+			if rr.Op == "enable" && removedCurOf[rr.Snap] {
+				enabledAfterRemoveCur = true
+			}
 			if rr.Op == "remove" {
 				wholeRemove = true
 			}
@@ -267,7 +322,16 @@ func c11Run(c *check.C, cs c11Case) (verifkit.Outcome, error) {
 		}
 	}
 
-	o.NonTrivial = failedThenOK || removeNonCurrent || disabledEpisode
+	o.NonTrivial = failedThenOK || removeNonCurrent || disabledEpisode || removeCurDisabled
+	if removeCurDisabled {
+		o.Labels = append(o.Labels, "remove-current-of-disabled")
+	}
+	if removeCurDisabledNotLast {
+		o.Labels = append(o.Labels, "remove-current-of-disabled-not-last")
+	}
+	if enabledAfterRemoveCur {
+		o.Labels = append(o.Labels, "enabled-after-remove-current")
+	}
 	if failedThenOK {
 		o.Labels = append(o.Labels, "failed-then-ok")
 	}
@@ -309,7 +373,8 @@ func TestVerifC11(t *testing.T) {
 			ID: "C11", Engine: "histories",
 			Gen:             c11Gen,
 			Run:             func(cs c11Case) (verifkit.Outcome, error) { return c11Run(c, cs) },
-			Floors:          map[string]float64{"failed-then-ok": 0.25, "remove-noncurrent": 0.15, "whole-remove": 0.08, "refused-request": 0.10},
+			Floors:          map[string]float64{"failed-then-ok": 0.25, "remove-noncurrent": 0.15, "whole-remove": 0.08, "refused-request": 0.10,
+				"remove-current-of-disabled": 0.12, "remove-current-of-disabled-not-last": 0.05, "enabled-after-remove-current": 0.05},
 			NonTrivialFloor: 0.5,
 		})
 	})
